@@ -23,9 +23,19 @@ THEOREMS = {"Properties.C03": [
     "C03_invalid_input_no_effect", "C03_engine_failure_atomic", "C03_engine_history", "C03_others_untouched",
     "C03_complete_frame_leftover_refuted", "C03_complete_frame_leftover_batch_refuted",
     "C03_prefix_model_refuted", "C03_nonvacuous_short_enospc_failed_truncate",
-    "C03_nonvacuous_retry_then_ack_and_breaker", "C03_premises_satisfiable"]}
+    "C03_nonvacuous_retry_then_ack_and_breaker", "C03_premises_satisfiable"],
+    "Properties.C03seg": [
+    "C03_seg_appended_stays_recoverable", "C03_seg_snapshot_covers_only_captured", "C03_seg_writer_on_newest_listed",
+    "C03_seg_listed_segments_exist", "C03_seg_step_preserves_invariant", "C03_seg_old_rotation_refuted", "C03_seg_nonvacuous"]}
 
-PINS = {"Properties.C03": {
+SEG_PRE = "From Coq Require Import List NArith Bool. From Kyro Require Import Model.Segments Proofs.SegmentsProofs. Import ListNotations. Open Scope N_scope."
+PINS = {"Properties.C03seg": {
+    "_preamble": SEG_PRE,
+    "C03_seg_appended_stays_recoverable": "forall ms s', mrun init ms = Some s' -> forall n, In n (log s') -> recoverable s' n = true",
+    "C03_seg_writer_on_newest_listed": "forall ms s' a, mrun init ms = Some s' -> active s' = Some a -> lastN (man s') = Some a /\\ memN a (files s') = true",
+    "C03_seg_listed_segments_exist": "forall ms s', mrun init ms = Some s' -> forallb (fun f => memN f (files s')) (man s') = true",
+    "C03_seg_snapshot_covers_only_captured": "forall ms s' n, mrun init ms = Some s' -> In n (log s') -> n <= snap s' -> In n (captured s')",
+}, "Properties.C03": {
     "_preamble": "From Coq Require Import List NArith Bool. From Kyro Require Import Model.WalBytes Proofs.WalBytesProofs Model.WalWriter Proofs.WalWriterProofs. Import ListNotations. Open Scope N_scope.",
     "C03_wal_failure_atomic": "forall (crc : bytes -> N) (pol : policy) (deser_ok : bytes -> bool), (forall p, crc p < 4294967296) -> forall (st : wstate) (es : list bytes) (op : wop) (orc : oracle) st' r orc', Inv crc deser_ok st es -> Forall (wfp deser_ok) (wpayloads op) -> wstep crc pol st op orc = (st', r, orc') -> is_failed r = true -> known_c03 crc pol st (wpayloads op) orc = false -> read_all_strict crc deser_ok (w_file (s_w st')) = read_all_strict crc deser_ok (w_file (s_w st)) /\\ read_all_strict crc deser_ok (w_file (s_w st)) = RdOk es /\\ Inv crc deser_ok st' es",
     "C03_no_ack_after_poison": "forall (crc : bytes -> N) (pol : policy) (ops : list wop) (st : wstate) (orc : oracle) st' rs orc', w_poisoned (s_w st) = true -> wrun crc pol st ops orc = (st', rs, orc') -> Forall (fun r => is_failed r = true) rs /\\ s_w st' = s_w st",
@@ -62,6 +72,25 @@ def eval_shards(ctx, out, tag):
     return bad, known, evaluated, coq_err
 
 
+def eval_seg_shards(ctx, out, tag):
+    shards = []
+    i = 0
+    while os.path.exists(os.path.join(out, "segcases_%d.v" % i)):
+        shards.append(open(os.path.join(out, "segcases_%d.v" % i)).read())
+        i += 1
+    res = vlib.coq_eval(tag, shards)
+    bad, badop, evaluated, coq_err = [], [], 0, []
+    for k, (rc, o) in enumerate(res):
+        tags = vlib.parse_tagged(o)
+        if rc != 0 or "segbad" not in tags or "segcount" not in tags:
+            coq_err.append({"shard": k, "rc": rc, "out": o[-1200:]})
+            continue
+        bad += vlib.parse_numbers(tags["segbad"].split(":")[0])
+        badop += vlib.parse_numbers(tags.get("segbadop", "").split(":")[0])
+        evaluated += vlib.parse_numbers(tags["segcount"].split(":")[0])[0]
+    return bad, badop, evaluated, coq_err
+
+
 def tighten(fails, model_known):
     """A writer-level failure keeps the recorded class only if the MODEL, run on the oracle translated
     from the shim log, also places that plan in the class (known_c03 evaluated inside coqc)."""
@@ -75,6 +104,7 @@ def tighten(fails, model_known):
 def run(ctx):
     quick = ctx.tier == "quick"
     n, wn, bn = (150, 240, 40) if quick else (900, 0, 200)
+    sh, scap = (5, 60) if quick else (40, 150)
     ctx.trusted += [
         "Model/WalWriter.v is a hand-written byte-level model of WalWriter::{append, append_batch, write_entry, perform_fsync, rollback_to_offset, rollback_to_stable_state, ensure_not_poisoned}, WalErrorHandler::{write_with_retry, classify_error}, the Closed/Open part of CircuitBreaker and the libstd loops underneath (write_all, cvt_r); it is tied to the real writer on every run by correspondence under injected faults, compared inside coqc: result class, file bytes, counters, breaker state, exact sequence of system calls, oracle consumed exactly",
         "premises of the theorems: crc p < 2^32 (met by the executable CRC-32, crc32m_lt) and, for every payload logged, 0 < size <= MAX_WAL_ENTRY_BYTES and bincode-decodable (wfp)",
@@ -83,22 +113,28 @@ def run(ctx):
         "engine layer of the model: payload = bincode(WalEntry) whose first 12 bytes are the op variant (u32 LE) and doc_id (u64 LE) — checked on every observed payload; the live engine applies an entry exactly as recovery replays it (C02's subject)",
         "direct oracle streams: engine plans run the real HnswBackend (start-up decision replicated from kyrodb_server main), bulk plans run TieredEngine::bulk_load_cold_tier; drain repair is not reachable through the public API without an orphaned hot-tier mirror and is not driven",
     ]
-    proofs_ok = ctx.proof_phase(["Properties/C03.vo"], THEOREMS, pins=PINS)
+    ctx.trusted += [
+        "Model/Segments.v is a hand-written segment-level model of rotate_wal_if_needed, create_snapshot + compact_old_wal_segments, the create-push-save tail of with_persistence / recover and the three caller-visible outcomes of Manifest::save; it is tied to the real HnswBackend on every run: for rotation/snapshot-heavy histories EVERY single-fault position (n-th write / fsync / fdatasync / rename / open / unlink of every operation, capped per history by a seeded sample) is run under the fsshim, the effect log of each operation is translated into the model's micro-steps (harness/p/c03/src/seg.rs, trusted) and coqc compares the model state with the observed on-disk MANIFEST, segment files, their sequence numbers (engine's own WalReader) and the segment the live writer holds open (/proc/self/fd) after every operation",
+        "segment model: appends are taken as observed (what a failing append leaves in the file is Model/WalWriter.v's subject); an append whose segment is compacted away within the same operation is not visible to the comparison; failures of reads (Manifest::load, WalReader) are outside the modelled fault class",
+    ]
+    proofs_ok = ctx.proof_phase(["Properties/C03.vo", "Properties/C03seg.vo"], THEOREMS, pins=PINS)
     ok, log = vlib.cargo_build(["c03"])
     ctx.log("cargo.log", log)
     if not ok:
         ctx.violation({"property": "C03", "kind": "harness-build-failed", "log_tail": log[-3000:],
                        "unchecked": "correspondence Model/WalWriter.v vs engine/src/persistence.rs; direct oracle"}, no_input=True)
         return
-    args = ["--n", str(n), "--bn", str(bn)] + (["--wn", str(wn)] if quick else [])
+    args = ["--n", str(n), "--bn", str(bn), "--sh", str(sh), "--scap", str(scap)] + (["--wn", str(wn)] if quick else [])
     summ, fails = perscheck.run_driver(ctx, "c03", args)
     if summ is None:
         return
     out = os.path.join(vlib.CACHE, "run", "C03")
     bad, model_known, evaluated, coq_err = eval_shards(ctx, out, "C03")
+    sbad, sbadop, sevaluated, scoq_err = eval_seg_shards(ctx, out, "C03seg")
+    coq_err += scoq_err
     fails = tighten(fails, set(model_known))
     harness_known = {f["plan_index"] for f in fails if f.get("stream") == "writer" and f.get("class") == KNOWN}
-    evaluations = summ["plans"] + summ["writer_plans"] + summ["bulk_plans"]
+    evaluations = summ["plans"] + summ["writer_plans"] + summ["bulk_plans"] + summ.get("segment_plans_run", 0)
     ctx.cov.update({
         "evaluations": evaluations,
         "distinct_nontrivial": summ["distinct_nontrivial"],
@@ -114,7 +150,10 @@ def run(ctx):
         "writer_plans": summ["writer_plans"], "writer_plans_with_a_failed_call": summ["writer_plans_with_a_failed_call"],
         "writer_syscalls_translated_into_oracle": summ["writer_syscalls_translated"],
         "bulk_plans": summ["bulk_plans"], "bulk_plans_with_a_failed_item": summ["bulk_plans_with_a_failed_item"],
-        "traces_validated_against_impl": evaluated, "model_disagreements": len(bad),
+        "segment_plans": summ.get("segment_plans", 0), "segment_plans_evaluated_in_coqc": sevaluated,
+        "segment_model_disagreements": len(sbad), "segment_effects_translated": summ.get("segment_effects_translated", 0),
+        "segment_micro_steps": summ.get("segment_micro_steps", {}), "segment_plan_kinds": summ.get("segment_plan_kinds", {}),
+        "traces_validated_against_impl": evaluated + sevaluated, "model_disagreements": len(bad) + len(sbad),
         "plans_in_recorded_class_by_model": len(model_known), "plans_in_recorded_class_by_harness": len(harness_known),
         "oracle_failures": len(fails),
     })
@@ -134,6 +173,17 @@ def run(ctx):
             pass
         broken.append({"kind": "writer-correspondence", "disagreeing_plan_ids": bad[:20],
                        "first_plan": {"wplan": allc.get(bad[0])}})
+    if sbad:
+        allc = {}
+        try:
+            allc = {c["id"]: c["splan"] for c in json.load(open(os.path.join(out, "seg_cases.json")))}
+        except Exception:
+            pass
+        broken.append({"kind": "segment-correspondence", "disagreeing_plan_ids": sbad[:20], "first_differing_operation_index_plus_one": sbadop[:20],
+                       "note": "Model/Segments.v and the real directory differ after this operation (index 0 = the initial start)",
+                       "first_plan": {"splan": allc.get(sbad[0])}})
+    if sevaluated == 0 and not scoq_err and not ctx.replay:
+        broken.append({"kind": "no-segment-plan-evaluated"})
     if set(model_known) - harness_known:
         broken.append({"kind": "recorded-class-mismatch", "note": "the model places these writer plans in the recorded class but the real reader's view did not change", "plan_ids": sorted(set(model_known) - harness_known)[:20]})
     if evaluated == 0 and not coq_err and not ctx.replay:
